@@ -12,6 +12,7 @@ import Driver.Conc
 import Driver.Lua
 import Driver.Retention
 import Driver.Rest
+import Driver.SanFilter
 open Driver
 
 /-
@@ -34,5 +35,6 @@ def main (args : List String) : IO UInt32 := do
   | ["lua"] => runLoop Driver.LuaMode.step ()
   | ["ret"] => runLoop Driver.RetMode.step Driver.RetMode.init
   | ["rest"] => runLoop Driver.RestMode.step Driver.RestMode.init
+  | ["sanf"] => runLoop (fun (_ : Unit) toks => ((), Driver.SanFilter.handler toks)) ()
   | _ => IO.eprintln s!"unknown mode {args}"; return 2
   return 0
